@@ -102,6 +102,61 @@ DESC2 = {
  'C18_C': ('multi_record_log.rs run_gc_if_necessary', 'guard clone taken after the position pass (rediscovery)', 'all queues empty, position records straddling a file boundary, restart'),
 }
 
+DESC3 = {
+ 'C01_A': ('multi_record_log.rs truncate', 'memory truncate first; Truncate entry and GC skipped when nothing was evicted', 'truncate of an empty queue to a future position, clean restart'),
+ 'C01_B': ('multi_record_log.rs run_gc_if_necessary', 'guard clone of the current file taken after the position pass', 'position records straddling a file boundary during a GC pass, restart'),
+ 'C01_C': ('rolling/file_number.rs take_all_unused + rolling/directory.rs gc_unused + delete_queue', 'delete_queue reclaims EVERY unreferenced file (filter), not only the oldest prefix', 'an older file still pinned while a newer non-last file holding only bookkeeping entries is unreferenced'),
+ 'C02_A': ('multi_record_log.rs run_gc_if_necessary', 'guard clone scoped around the position pass: dropped before gc()', 'position records straddling a file boundary, crash/restart'),
+ 'C02_B': ('rolling/directory.rs RollingReader::next_block + new helper load_first_block', 'helper sets block_id = 0 before it knows a first block can be read', 'crash between create_new and set_len of the next file, reopen, append, reopen'),
+ 'C02_C': ('recordlog/reader.rs go_next', 'record_buffer.clear() hoisted to the top of go_next under !within_record', 'crash between two frames of a block-spanning entry, reopen, one more entry, reopen'),
+ 'C03_A': ('rolling/directory.rs RollingWriter::persist + needs_persist + flushed/synced offsets', 'persist skipped when the offset equals the offset of the last flush; offsets not reset at roll-over', 'same offset reached in the next file after a roll-over, then a process crash'),
+ 'C03_B': ('multi_record_log.rs delete_queue', 'in-memory delete moved after GC and persist', 'deleting an empty queue in a call that also triggers GC, then recovery'),
+ 'C03_C': ('recordlog/reader.rs go_next', 'record_buffer.clear() moved to the top of go_next', 'torn two-frame append under DoNothing, recovery, persisted append, second crash'),
+ 'C04_A': ('mem/queue.rs truncate_head', 'early return widened to `is_empty() || start > pos`: an empty queue no longer moves forward', 'truncate of an empty queue at/after its next position, automatic append'),
+ 'C04_B': ('multi_record_log.rs run_gc_if_necessary / record_empty_queues_position', 'guard clone moved into the position pass (dropped before gc())', 'position records rolling over during GC, restart'),
+ 'C04_C': ('mem/queues.rs empty_queue_positions (new) + record_empty_queues_position', 'GC records `summary.end.unwrap_or(start)` = last position instead of next position', 'queue emptied at p > 0, files reclaimed, restart, automatic append'),
+ 'C06_A': ('multi_record_log.rs truncate', 'GC pass only when evicted_records > 0', 'dead older file + a truncate that evicts nothing'),
+ 'C06_B': ('mem/queues.rs delete_queue + multi_record_log.rs delete_queue', 'the removed MemQueue is returned and kept alive across the GC pass', 'deleting the queue that alone pins older files'),
+ 'C06_C': ('rolling/directory.rs remove_unused_file (new) used by gc', 'unlink failure only warned about (best-effort GC)', 'an I/O fault on unlink during a GC pass'),
+ 'C07_A': ('frame/reader.rs into_writer + resume_cursor (new)', 'resume position moved to the block end when remaining <= HEADER_LEN (writer/reader use <)', 'last entry before a reopen leaves exactly 7 bytes in its block'),
+ 'C07_B': ('recordlog/reader.rs go_next', 'a Middle frame arriving with an empty buffer resets within_record', 'an entry longer than a block starting exactly 7 bytes before a block end (empty First frame)'),
+ 'C07_C': ('rolling/directory.rs RollingWriter::forward', 'absolute seek at block_start + cursor % BLOCK_NUM_BYTES', 'a WAL file exactly full at reopen (cursor = BLOCK_NUM_BYTES wraps to 0)'),
+ 'C08_A': ('recordlog/reader.rs go_next + into_read_record_error (new)', 'error handling moved into a helper, within_record reset lost', 'damage in a middle frame of a two-payload batch with matching alignment'),
+ 'C08_B': ('mem/queue.rs append_record + end_position (new)', 'Past guard compares with start_position + len instead of last position + 1', 'a queue with a position gap, deleted and recreated, with the DeleteQueue/RecordPosition entries damaged'),
+ 'C08_C': ('frame/header.rs crc32', 'checksum = crc32fast::hash(payload): the frame type is no longer covered', 'damage rewriting exactly a frame-type byte'),
+ 'C09_A': ('frame/reader.rs read_frame + is_torn_tail (new)', 'CRC mismatch followed by zeros to the block end treated as end of log', 'payload damage in the last frame of a block with entries after it'),
+ 'C09_B': ('mem/queues.rs ack_position + MemQueue::fast_forward (new)', 'existing queue fast-forwarded with truncate_head instead of reset', 'delete + re-create + append with the DeleteQueue entry damaged'),
+ 'C09_C': ('recordlog/reader.rs go_next + skip_remaining_fragments (new)', 'on CRC failure frames are consumed up to the next record end', 'damage in the LAST fragment of a multi-block entry followed by another entry'),
+ 'C10_A': ('rolling/directory.rs filename_to_position + split_wal_file_name (new)', 'split_at(prefix len) before the prefix comparison', 'a stray 24-byte name with a multi-byte character across byte 4'),
+ 'C10_B': ('mem/queues.rs ack_position', 'stale queue handled with truncate_head(..=next_position - 1)', 'a position record 0 replayed over a queue holding records (duplicated block / lost delete)'),
+ 'C10_C': ('frame/reader.rs read_frame', 'length check against the bytes-to-end captured before the header was consumed', 'a damaged length making the frame end 1..7 bytes past its block'),
+ 'C11_A': ('rolling/directory.rs RollingReader::open + read_first_block (new)', 'a first WAL file shorter than a block is read as an all-zero block', 'first WAL file truncated below 32 KiB'),
+ 'C11_B': ('frame/reader.rs go_to_next_block_if_necessary', 'an I/O error of next_block() while the block is quarantined becomes NotAvailable', 'corrupted last block of a file + failure to open the next file'),
+ 'C11_C': ('multi_record_log.rs open_with_prefs + MAX_REPLAY_IO_ATTEMPTS', 'retry counter decremented in a shadowing binding: retries forever', 'any persistent I/O error inside the replay loop'),
+ 'C12_A': ('recordlog/reader.rs go_next + corruption_reported field', 'report-once flag also skips the within_record reset for later corrupt frames', 'two damaged spots: before the batch and in a middle frame of it'),
+ 'C12_B': ('frame/reader.rs read_frame + skip_rest_of_block (new)', 'an invalid header skips to the next block silently (no Corruption)', 'damage to the type byte of a middle frame of a multi-block batch'),
+ 'C12_C': ('multi_record_log.rs open_with_prefs AppendRecords arm', 'AppendError::Past skipped during replay ("idempotent")', 'batch X, delete, create, batch Y with the delete/create entries damaged'),
+ 'C13_A': ('record.rs is_empty_batch (new) + append_records', 'empty-batch test on size_hint before serialisation; the test on the serialised buffer removed', 'an empty batch whose iterator has an inexact size_hint'),
+ 'C13_B': ('mem/queues.rs cmp_with_last_position (new) + append_records', 'retry/past gates compare with last_record() (None on a drained queue)', 'a fully truncated queue + an explicit stale/retry position'),
+ 'C13_C': ('rolling/directory.rs roll_to_next_file/file_for_next_write + current_file() callers', 'current_file() rolls over eagerly when the file is exactly full', 'offset == FILE_NUM_BYTES then an empty batch'),
+ 'C14_A': ('multi_record_log.rs persist_on_policy', 'GC pass run after a policy-driven FlushAndFsync', 'an fsync policy + first file unreferenced at append time'),
+ 'C14_B': ('frame/writer.rs persist + pad_block (new)', 'fsync pads the block when exactly HEADER_LEN bytes remain', 'fsync policy + an operation ending BLOCK - 7 into a block'),
+ 'C14_C': ('rolling/directory.rs RollingWriter::write / forward', 'padding shorter than a header skipped through forward(), which seeks the File under the BufWriter', 'lazy policy with buffered bytes + a record ending 1..6 bytes before a block end'),
+ 'C15_A': ('frame/writer.rs write_frame + cursor_advance (new)', 'byte count taken from the block-cursor delta modulo BLOCK', 'a frame filling a whole block'),
+ 'C15_B': ('recordlog/writer.rs write_record', 'single-frame fast path returns HEADER_LEN + payload.len(), dropping write_frame\'s count', 'previous record ending 1..6 bytes before a block boundary'),
+ 'C15_C': ('multi_record_log.rs truncate', 'error of the GC pass logged instead of propagated', 'an I/O error in remove_file during GC with an empty queue present'),
+ 'C16_A': ('mem/queue.rs size + num_records (new)', 'records counted as next_position - start_position', 'a gap in positions'),
+ 'C16_B': ('mem/queues.rs ack_position + MemQueue::reset (new)', 'stale queue reset in place: metas cleared, payload buffer kept', 'lost Truncate entry followed by a surviving RecordPosition'),
+ 'C16_C': ('multi_record_log.rs resource_usage + num_buffered_bytes accessors', 'unflushed BufWriter bytes added to both memory figures', 'a lazy persist policy'),
+ 'C17_A': ('rolling/directory.rs Directory::open', 'dir_entry.path().is_file() (follows symlinks)', 'a symlink named wal-<20 digits>'),
+ 'C17_B': ('rolling/file_number.rs FileTracker::next', 'successor looked up as get(curr + 1)', 'a gap in the file numbers at open'),
+ 'C17_C': ('rolling/mod.rs parse_wal_filename (new) + filename_to_position', 'digit test lost in the "one place" refactor', 'a stray file named wal-+<19 digits>'),
+ 'C18_A': ('multi_record_log.rs delete_queue + prepare_gc (new)', 'position pass decided while the deleted queue still pins its files; gc() runs after the in-memory delete', 'an idle empty queue whose position lives only in files pinned by the deleted queue'),
+ 'C18_B': ('recordlog/reader.rs go_next', 'a First/Full frame arriving inside an unfinished entry returns Corruption (the valid frame is dropped)', 'torn multi-frame append on another queue, recovery, append on mine, restart'),
+ 'C18_C': ('multi_record_log.rs run_gc_if_necessary / record_empty_queues_position', 'guard clone moved into the position pass', 'a position record straddling two files during a GC triggered by another queue'),
+}
+
+
 ROUND = os.environ.get('SEED_ROUND', '1')
 
 
@@ -109,6 +164,8 @@ def main():
     global DESC
     if ROUND == '2':
         DESC = DESC2
+    if ROUND == '3':
+        DESC = DESC3
     out_root = os.path.join(VERIF, 'seeded')
     os.makedirs(out_root, exist_ok=True)
     work = os.path.join(VERIF, '.work')
@@ -118,6 +175,8 @@ def main():
         pid, x = key.split('_')
         src = os.path.join(SRC, pid, x)
         vs = os.path.join(VS, '%s_%s.json' % (pid, x))
+        if ROUND == '3' and not os.path.exists(vs):
+            vs = os.path.join(VS, 'r3_%s_%s.json' % (pid, x))
         if not os.path.isdir(src) or not os.path.exists(vs):
             print('skip (not verified yet):', key)
             continue
@@ -126,7 +185,7 @@ def main():
         if not ok:
             print('NOT CONFIRMED, not kept:', key, v)
             continue
-        dst = os.path.join(out_root, key if ROUND == '1' else 'r2_' + key)
+        dst = os.path.join(out_root, key if ROUND == '1' else 'r%s_' % ROUND + key)
         os.makedirs(dst, exist_ok=True)
         for f in ('patch.diff', 'demo.diff', 'notes.md'):
             if os.path.exists(os.path.join(src, f)):
@@ -136,7 +195,7 @@ def main():
         props = r.get('props_failed', []) if r['status'] == 'analysed' else []
         site, what, needs = DESC[key]
         meta = {
-            'id': key if ROUND == '1' else 'r2_' + key, 'round': int(ROUND), 'property': pid, 'site': site, 'what': what, 'needs': needs,
+            'id': key if ROUND == '1' else 'r%s_' % ROUND + key, 'round': int(ROUND), 'property': pid, 'site': site, 'what': what, 'needs': needs,
             'written_by': 'independent sub-agent given only the property text and a private worktree of /repo',
             'verified_by_me': {
                 'how': 'selftest/verify_seed.sh in a scratch worktree of /repo HEAD: (1) cargo test --offline --workspace --no-fail-fast with patch.diff, (2) the demo tests with patch.diff + demo.diff, (3) the demo tests with demo.diff only',
